@@ -69,6 +69,7 @@ type leaseCut struct {
 	healSeq uint64
 	goneT  int64 // when the incarnation crashed / was shut down
 	void   bool
+	rec    *leaderRec
 }
 
 type pvIso struct {
@@ -238,6 +239,15 @@ func (x *extState) hook(c *checker, s *server, key instKey, e *sim.Ev) {
 		x.leaseStepdown(c, s, key, e)
 	case "h.dispatch":
 		c.cov("dispatch")
+		for i := len(c.leadLog) - 1; i >= 0; i-- {
+			if l := c.leadLog[i]; l.key == key && !l.ended {
+				if !l.active {
+					l.active, l.activeT = true, e.T
+					c.lat("leader-enter-to-loop-ms", (e.T-l.t)/1e6)
+				}
+				break
+			}
+		}
 	}
 }
 
